@@ -1,11 +1,55 @@
-//! Enumerated part of C12: framing after negotiation over the real TLS transport (R-sim).
+//! Enumerated part of C12: framing after negotiation, over the real TLS and SSH transports
+//! (R-sim). The peer behaves like a conforming RFC 6242 server: when both hellos advertise
+//! :base:1.1 it expects and sends chunked framing. A session that was established must be usable.
 
 use crate::core::{Ctx, Tier, Verdict};
+use crate::ev;
+use crate::rsim::{hello_msg, run_scenario, Kind, Res, Scenario, Step};
+use crate::ssim::{CAP_BASE10, CAP_BASE11, CAP_JUNOS};
+
+const CASES: [(&str, &[&str]); 3] = [("base:1.0 only", &[CAP_BASE10, CAP_JUNOS]), ("base:1.0 and base:1.1", &[CAP_BASE10, CAP_BASE11, CAP_JUNOS]), ("base:1.1 only", &[CAP_BASE11, CAP_JUNOS])];
 
 pub fn count(_t: Tier) -> u64 {
-    0
+    6
 }
 
-pub fn run_enumerated(_ctx: &mut Ctx, _i: u64) -> Verdict {
-    Verdict::Pass
+pub fn run_enumerated(ctx: &mut Ctx, i: u64) -> Verdict {
+    let kind = if i < 3 { Kind::Tls } else { Kind::Ssh };
+    let (name, caps) = CASES[(i % 3) as usize];
+    let server_has_11 = caps.contains(&CAP_BASE11);
+    let sc = Scenario {
+        kind,
+        steps: vec![Step::Chunk(hello_msg(caps)), Step::Rfc6242Server { server_has_11 }],
+        requests: 1,
+        extra_request: false,
+        label: format!("conforming server advertising {name}"),
+        bad_credentials: false,
+        password: crate::rsim::SSH_PASSWORD.to_string(),
+    };
+    ev!(ctx, "scenario {}/{}", kind.name(), sc.label);
+    let o = run_scenario(ctx, &sc);
+    ev!(ctx, "establish {:?} results {:?} notes {:?}", o.establish, o.results, o.client_messages.iter().filter(|m| m.starts_with("<server:")).collect::<Vec<_>>());
+    ctx.nontrivial = true;
+    ctx.sim_time_ns = o.virt_ns;
+    ctx.count(&format!("runs.framing.{}", kind.name()));
+    if let Some(e) = &o.harness_error {
+        return Verdict::violation("harness-error", format!("{}/{}: {e}", kind.name(), sc.label));
+    }
+    match (&o.establish, o.results.first()) {
+        (Some(Res::Ok(_)), Some(Res::Ok(v))) if v.contains("TAG-1-framing") => Verdict::Pass,
+        (Some(Res::Ok(_)), r) => Verdict::violation(
+            format!("established-but-unusable/{}", if server_has_11 { "server-advertises-base:1.1" } else { "base:1.0" }),
+            format!("{}: the session was established against a {}, but the first rpc failed: {r:?}; {:?}", kind.name(), sc.label, o.client_messages.iter().filter(|m| m.starts_with("<server:")).collect::<Vec<_>>()),
+        ),
+        (Some(Res::Err(_)), _) => {
+            // refusing is fine when there is no common version the client can really speak
+            ctx.count("outcome.refused");
+            if caps.contains(&CAP_BASE10) {
+                Verdict::violation("refused-valid-hello", format!("{}: establishment failed against a {}: {:?}", kind.name(), sc.label, o.establish))
+            } else {
+                Verdict::Pass
+            }
+        }
+        (other, _) => Verdict::violation("hello-exchange-stuck", format!("{}: {other:?}", kind.name())),
+    }
 }
